@@ -692,6 +692,8 @@ def run(chk):
     import sys
     import c05_fwd
     chk.cov["distinct_nontrivial"] += c05_fwd.run_family(chk, sys.modules[__name__], pool, T)
+    import c05_feedback
+    chk.cov["distinct_nontrivial"] += c05_feedback.run_family(chk, sys.modules[__name__], pool, T)
     chk.cov["rule"] += ("; the table includes (C05 only) dematerialize over notification objects (OnNext / OnError / "
                         "OnCompleted elements, elements after an inner terminal), starmap over tuples (2 arguments, "
                         "10% wrong arity; starmap() without mapper), pluck over dicts keyed by falsy pool values and "
@@ -707,10 +709,24 @@ def run(chk):
                         "is measured under a fresh TestScheduler and the pipeline must give the list computation over "
                         "that timeline, each output at the virtual time of its input) x mode (single, the operator "
                         "applied twice, operator ; share(), share() ; operator); its non-trivial cases (>=2 source "
-                        "elements, non-empty expected output, oracle satisfied) are added to distinct_nontrivial")
+                        "elements, non-empty expected output, oracle satisfied) are added to distinct_nontrivial"
+                        "; re-entrant feedback family (harness/c05_feedback.py, oracle only; counts in coverage."
+                        "feedback): every operator of the table x source (reactivex Subject / hand-made hot probe) x "
+                        "seeded nesting script (chain: every on_next of the subscriber pushes the next queued "
+                        "notification into the source; random / pairs: 0..2 pushes per on_next; boundary: a single "
+                        "nesting on_next): the queue (0..8 elements, then completion / error / nothing) is popped at "
+                        "the head by every push, so the order of making is the queue order; judged by the list "
+                        "computation over that order with stack-clock tags (an output carries the position of the "
+                        "innermost delivery on the stack when it reaches the subscriber); a source terminal made "
+                        "re-entrantly: terminal judged up to {list computation's, source's own}; find and element_at "
+                        "are compared for coverage only (coverage.feedback.observed_only); its non-trivial cases "
+                        "(>= 1 nested push, >= 2 elements, non-empty expected output, oracle satisfied) are added to "
+                        "distinct_nontrivial")
     return chk.finish(trusted_extra=["hot-source K2 driver (harness/k2.py); callback tables mirrored in Gallina",
                                      "reactivex.testing.TestScheduler / hot observable and the recording probe source of "
-                                     "harness/c05_fwd.py (scheduler-forwarding family)"])
+                                     "harness/c05_fwd.py (scheduler-forwarding family)",
+                                     "reactivex.subject.Subject as a feedback source and the hand-made hot probe / stack "
+                                     "clock of harness/c05_feedback.py (re-entrant feedback family)"])
 
 
 def run_table(chk, pid, pool, T, expected, IMPORTS, in_ty="Z", ncase=None, maxlen=7, gen_inputs=None):
@@ -826,4 +842,8 @@ def replay(chk, path):
         import sys
         import c05_fwd
         return c05_fwd.replay(chk, sys.modules[__name__], d, path, pool, T)
+    if d.get("family") == "feedback":
+        import sys
+        import c05_feedback
+        return c05_feedback.replay(chk, sys.modules[__name__], d, path, pool, T)
     return replay_table(chk, path, "C05", pool, T, expected)
